@@ -29,7 +29,8 @@ META = {
             "stands at its k-th point, k = 1..(number of points of the call), a point being every source line of "
             "channel.py and of the blocking Transport/AuthHandler APIs and every synchronisation operation; "
             "plus the channel calls on a channel that is already half-closed (shutdown_read / shutdown_write / "
-            "shutdown(2) by this side, EOF from the peer) x loss x timing before/after; "
+            "shutdown(2) by this side, EOF from the peer) or after a stray OPEN_FAILURE / OPEN_CONFIRMATION from the peer "
+            "naming the established channel, x loss x timing before/after; "
             "plus every API x local close while the victim's transport thread is "
             "busy inside an application callback (x11 handler on the client, check_channel_exec_request on the "
             "server; timing before [quick] / racing / after). The call must return or raise within 3 virtual seconds of the loss (or "
@@ -112,6 +113,15 @@ def make_body(scn):
                 chan.shutdown(2)
             elif pre == "peer_eof":
                 schan.shutdown_write()
+            elif pre in ("stray_open_failure", "stray_open_success"):
+                # a misbehaving peer: an OPEN_FAILURE / OPEN_CONFIRMATION naming the already established channel
+                from paramiko.common import MSG_CHANNEL_OPEN_FAILURE, MSG_CHANNEL_OPEN_SUCCESS
+                if pre == "stray_open_failure":
+                    p.ts._send_message(F.msg(MSG_CHANNEL_OPEN_FAILURE, ("int", chan.chanid), ("int", 2),
+                                             ("str", b"no"), ("str", b"en")))
+                else:
+                    p.ts._send_message(F.msg(MSG_CHANNEL_OPEN_SUCCESS, ("int", chan.chanid), ("int", 99),
+                                             ("int", 65536), ("int", 32768)))
             s.quiesce()
         vt, vsock, peer_t = (p.ts, p.ss, p.tc) if victim_of(api) == "s" else (p.tc, p.sc, p.ts)
         in_pipe = p.c2s if victim_of(api) == "s" else p.s2c      # pipe that carries data to the victim
@@ -354,7 +364,8 @@ def scenarios(tier):
                     out.append((api, loss, timing, None, 2))
         # the channel is already half-closed when the call blocks (only calls that still make sense then)
         if api in ("recv", "recv_stderr", "recv_exit_status", "send_zero_window", "sendall_zero_window"):
-            for pre in ("shutdown_read", "shutdown_write", "shutdown2", "peer_eof"):
+            for pre in ("shutdown_read", "shutdown_write", "shutdown2", "peer_eof", "stray_open_failure",
+                        "stray_open_success"):
                 if api.endswith("zero_window") and pre in ("shutdown_write", "shutdown2"):
                     continue        # sending after shutting the write side down fails at once by design
                 if api in ("recv", "recv_stderr") and pre == "peer_eof":
